@@ -45,11 +45,17 @@ KNOWN_SHAPES = [
                 r"D(Vec|Mat)\d: Shader(Size|Type)"), "encase-f64"),
     (re.compile(r"`bool: Shader(Size|Type)`"), "encase-bool"),
     (re.compile(r"`bool: (bytemuck::)?Pod`|`bool: Pod`"), "bytemuck-bool"),
-    (re.compile(r"\[.*; 33\].*(Serialize|Deserialize)|Deserialize<'_>` is not (satisfied|implemented) for `\["), "serde-array>32"),
+    (re.compile(r"\[.*; 33\].*(Serialize|Deserialize)|Deserialize<'_>` is not (satisfied|implemented) for `\[|"
+                r"`\[[^`]*; (3[3-9]|[4-9]\d|\d{3,})\]: (serde::)?(Serialize|Deserialize)"),
+     "serde-array-over-32"),
 ]
+# the derive switch that has to be on for the known shape to be the known finding: the same
+# rustc message under another option set is a different defect and gets its own signature
+SHAPE_NEEDS = {"encase-f64": "en", "encase-bool": "en", "bytemuck-bool": "bh",
+               "serde-array-over-32": "se"}
 
 
-def culprit(case, diags):
+def culprit(case, diags, opt=None):
     for t in getattr(case.spec, "families", []):
         if t not in ("hostile",) and "hostile" in case.spec.families:
             return t
@@ -57,6 +63,8 @@ def culprit(case, diags):
     msg = d.get("message") or ""
     for rx, name in KNOWN_SHAPES:
         if rx.search(msg):
+            if opt is not None and not opt.get(SHAPE_NEEDS[name]):
+                return "%s:without-%s" % (name, SHAPE_NEEDS[name])
             return name
     return "%s:%s" % (d.get("code") or "E????", normalise(msg))
 
@@ -192,7 +200,7 @@ def main(tier, replay, t0):
                 perm[k_] += 1
             continue
         bad = [dg for dg, k_ in zip(r["diags"], kinds) if not k_]
-        viol.append(Violation("does-not-compile", culprit(c, bad),
+        viol.append(Violation("does-not-compile", culprit(c, bad, x["opt"]),
                               "returned module is rejected by rustc against wgpu 24.0.5 + the "
                               "crates its options name: [%s] %s" % (bad[0].get("code"),
                                                                    bad[0].get("message")),
